@@ -238,7 +238,7 @@ KNOWN_IMMEDIATE = {
 # _log_action_or_intents interpolating a meta tag when the flow finishes, the internal-event handlers indexing / hashing the flow id):
 # it escapes run_to_completion, the outgoing events of that processing step are lost and the canaries do not react to the event;
 # two flows activating, on the same event, a flow whose first action cannot be generated never terminates.
-PENDING_FAULTS = ("bad-default-start", "bad-default-await", "bad-default-activate", "bad-meta-await", "bad-meta-start", "bad-internal-event", "activate-bad-first-action")
+PENDING_FAULTS = ()  # (all of them are generated since the findings C10-F34 .. C10-F37 were fixed in /repo)
 
 
 def known(case, violation):
